@@ -371,6 +371,7 @@ func reducersOver(a *acc, d []int, lastKs []int) {
 		return out
 	})
 	a.count("totals", "flavour agreement checks", 2+2*len(lastKs))
+	reducerPosition(a, d, lastKs)
 }
 
 func smallReducers(a *acc, sp *seqSpace, idx int, cfg smallCfg) {
@@ -399,6 +400,7 @@ func equalOver(a *acc, seqs [][]int) {
 		}
 		return out
 	})
+	equalPosition(a, seqs)
 	if len(seqs) == 2 {
 		a.reduce("xslices", "Equal", param, seqs, false, want, func() any {
 			g0, chk0, _ := guardInts(seqs[0])
